@@ -1,12 +1,14 @@
-//verif:v1only root-module bindings have no exported per-field (un)marshalers: the query-fields format is not generated
+//verif:v1only root-module bindings have no exported per-field (un)marshalers: the query-fields format is not generated for encoding
 
 package codecprops
 
 import (
+	"fmt"
 	"reflect"
 
 	"github.com/PapaCharlie/go-restli/v2/restlicodec"
 
+	"verif/HARNESS/dyn"
 	"verif/core/schema"
 )
 
@@ -17,6 +19,87 @@ func buildQuery(f restlicodec.MapWriter) (string, error) {
 	return w.Finalize(), err
 }
 
+// requiredFieldsOf builds the required-field set a hand-written ReadRecord call passes (root module: a plain slice).
+func requiredFieldsOf(names ...string) restlicodec.RequiredFields {
+	return restlicodec.RequiredFields(names)
+}
+
+// decodeQueryFields reads a query string as the fields of a record through the root module's
+// QueryParamsReader.ReadRecord. Root-module records have no exported UnmarshalField / RequiredFields (the generator
+// emits that dispatch inline, and only into the DecodeQueryParams of params structs), so the per-field dispatch is
+// written here the way the root generator writes it: required = the record's required field names (includes
+// flattened), named types through their UnmarshalRestLi, primitives through Read<Prim>, containers through the
+// reader's ReadArray / ReadMap, optional fields allocated before they are read, unknown fields skipped. Everything
+// the checks judge (parsing, scope tracking, the missing-field set, the error) is the library's.
 func decodeQueryFields(t schema.Type, doc string) (reflect.Value, error) {
-	panic("query-fields is a v2-only format")
+	q, err := restlicodec.ParseQueryParams(doc)
+	if err != nil {
+		return reflect.Value{}, err
+	}
+	n := S.Lookup(*t.Ref)
+	var required restlicodec.RequiredFields
+	fields := map[string]schema.Field{}
+	for _, f := range S.AllFields(n) {
+		fields[f.Name] = f
+		if f.Required() {
+			required = append(required, f.Name)
+		}
+	}
+	p := reflect.New(dyn.GoType(S, t))
+	err = q.ReadRecord(required, func(reader restlicodec.Reader, field string) error {
+		f, ok := fields[field]
+		if !ok {
+			return reader.Skip()
+		}
+		dst := p.Elem().FieldByName(schema.Exported(f.Name))
+		if !dst.IsValid() {
+			panic(fmt.Sprintf("harness: %s has no Go field for schema field %q", p.Elem().Type(), f.Name))
+		}
+		return readFieldInto(dst, f.Type, reader)
+	})
+	return p.Elem(), err
+}
+
+// readFieldInto decodes one value of schema type t from r into dst (the Go field, array element or map value slot).
+func readFieldInto(dst reflect.Value, t schema.Type, r restlicodec.Reader) error {
+	if dst.Kind() == reflect.Ptr {
+		// optional / defaulted fields and record-like elements are pointers: allocated, then filled
+		dst.Set(reflect.New(dst.Type().Elem()))
+		dst = dst.Elem()
+	}
+	switch {
+	case t.Array != nil:
+		sl := reflect.Zero(dst.Type())
+		err := r.ReadArray(func(r restlicodec.Reader) error {
+			e := reflect.New(dst.Type().Elem()).Elem()
+			if err := readFieldInto(e, *t.Array, r); err != nil {
+				return err
+			}
+			sl = reflect.Append(sl, e)
+			return nil
+		})
+		if err != nil {
+			return err
+		}
+		dst.Set(sl)
+		return nil
+	case t.Map != nil:
+		m := reflect.MakeMap(dst.Type())
+		err := r.ReadMap(func(r restlicodec.Reader, key string) error {
+			e := reflect.New(dst.Type().Elem()).Elem()
+			if err := readFieldInto(e, *t.Map, r); err != nil {
+				return err
+			}
+			m.SetMapIndex(reflect.ValueOf(key), e)
+			return nil
+		})
+		if err != nil {
+			return err
+		}
+		dst.Set(m)
+		return nil
+	}
+	rv, err := dyn.Unmarshal(S, t, r)
+	dst.Set(rv)
+	return err
 }
